@@ -58,6 +58,19 @@ func BulkOps() []BulkOp {
 	}
 }
 
+// BulkOpsNamed returns the named subset of BulkOps.
+func BulkOpsNamed(names ...string) []BulkOp {
+	out := []BulkOp{}
+	for _, o := range BulkOps() {
+		for _, n := range names {
+			if o.Name == n {
+				out = append(out, o)
+			}
+		}
+	}
+	return out
+}
+
 type BulkConfig struct {
 	Backends  []string
 	Sizes     []int
